@@ -2,7 +2,7 @@
 //! kind "lut": LookupTable::set then the clear rotation by every requested k, raw limbs logged through hook H2.
 //! kind "br":  LWE(m) -> blind rotation -> GLWE, decrypted with the library's glwe_decrypt; the LWE ciphertext, both
 //!             secrets, the encoded table and the decrypted plaintext are logged (TLC derives the expected rotation).
-use crate::util::{Rng, guarded};
+use crate::util::{ABuf, Rng, guarded};
 use poulpy_bin_fhe::blind_rotation::*;
 use poulpy_core::api::*;
 use poulpy_core::layouts::prepared::*;
@@ -105,7 +105,12 @@ macro_rules! lut_backend {
                 let mut res = GLWE::alloc_from_infos(&glwe_infos);
                 let mut brk_p: BlindRotationKeyPrepared<DeviceBuf<BE>, CGGI, BE> = BlindRotationKeyPrepared::alloc(&m, &brk);
                 brk_p.prepare(&m, &brk, scratch_br.borrow());
-                brk_p.execute(&m, &mut res, &lwe, &lut, scratch_br.borrow());
+                // the rotation itself runs in an arena full of garbage (a scratch that earlier calls have used), and writes
+                // into a result full of garbage
+                Rng::new(id ^ 0x3131).fill(res.data_mut().data.as_mut());
+                let need = BlindRotationKeyPrepared::<DeviceBuf<BE>, CGGI, BE>::execute_tmp_bytes(&m, block, ext, &glwe_infos, &brk_infos);
+                let mut dirty = ABuf::new(need + (1 << 12), id ^ 0x4242);
+                brk_p.execute(&m, &mut res, &lwe, &lut, <Scratch<BE> as ScratchFromBytes<BE>>::from_bytes(dirty.win_mut()));
                 let mut pt_have = GLWEPlaintext::alloc_from_infos(&glwe_infos);
                 m.glwe_decrypt(&res, &mut pt_have, &skp, scratch.borrow());
                 let dec0 = pt_have.decode_coeff_i64(TorusPrecision((p + 1) as u32), 0);
